@@ -135,6 +135,7 @@ structure Out where
   /-- the table of the target database after the call -/
   target : List Atom
   files : List FileEffect
+  deriving DecidableEq, Repr
 
 /-- `if export: …` -/
 def exportFiles (mob tar : Db) (doExport : Bool) (mobile' : List Atom) : Except Err (List FileEffect) :=
